@@ -69,5 +69,6 @@ func sideMain(probe string) {
 	}
 	fmt.Println("SIDE " + res)
 	os.Stdout.Sync()
+	os.RemoveAll(dir)
 	os.Exit(0)
 }
